@@ -13,7 +13,7 @@ RULE = ("seeded gen_coords runs with residue types of 1-4 atoms (+ virtual site;
         "atoms; distinct = distinct event-log digests")
 ASSUMPTIONS = wa.ASSUMPTIONS
 REAL_VS_STUB = wa.REAL_VS_STUB
-PROBES = wa.PROBES + ["user_template", "alias_templates", "list_order", "earlier_call_same_topology_paths", "centres_supplied"]
+PROBES = wa.PROBES + ["user_template", "alias_templates", "list_order", "earlier_call_same_topology_paths", "centres_supplied", "atoms_and_centres_supplied_together", "integer_position_arrays"]
 PROFILE = {"max_atoms": 4, "p_bf": 0.7, "faults": ["orient", "orient", "step", "opt"], "n_restypes": (1, 3),
            "box_modes": ["cubic", "noncubic", "density"]}
 
@@ -43,6 +43,14 @@ def gen_job(verif_seed, tier, index):
         jobgen.add_user_templates(job, g)
     elif r < 0.55:
         jobgen.add_list_order(job, g)
+    elif r < 0.65:
+        jobgen.add_resid_restart(job, g)       # residue numbers that start again inside a molecule type
+    elif r < 0.72:
+        jobgen.add_both_inputs(job, g)         # -c and -mc together
+    elif r < 0.79 and "box" in job["opts"]:
+        # residue centres on an integer lattice, handed to the backmapping as integer arrays
+        if jobgen.add_coordinates(job, g, {"lattice_centres": True, "coord_modes": ["meta_full", "meta_full", "meta_prefix"]}):
+            job["int_positions"] = True
     if job.get("coord_text") is None and not job.get("bld_volumes") and g.random() < 0.12:
         jobgen.add_pre_variant(job, g, g.choice(["other_geometry", "other_graph"]))
     return job
@@ -55,6 +63,10 @@ def _nt(j, r):
         r["probes"]["alias_templates"] = 1
     if j.get("list_order"):
         r["probes"]["list_order"] = 1
+    if r["faults"].get("position_as_integer_array"):
+        r["probes"]["integer_position_arrays"] = 1
+    if j.get("meta_text") is not None:
+        r["probes"]["atoms_and_centres_supplied_together"] = 1
     return bool(r["probes"].get("backmapped_multi_atom_residue"))
 
 
